@@ -270,6 +270,23 @@ def body(cfg):
             ok.append(S.eq(y[idx], hom(x)[idx]))
         S.claim("heterogeneous_model_agrees_with_homogeneous_model_on_each_label", S.and_(tuple(y.shape) == lab.shape, S.and_(ok)))
         S.claim("second_call_same_result", S.eq(m(x), y))
+        # inside a combined model, fed from a parameter buffer the caller keeps using afterwards
+        if dofs == "all":
+            lin = darsia.LinearModel(scaling=2.0, offset=0.5)
+            h2 = darsia.HeterogeneousLinearModel(lab, scaling=s.copy(), offset=o.copy())
+            cm = darsia.CombinedModel([lin, h2])
+            buf = S.array("buf", 2 + 2 * nl, lo=-3, hi=3)
+            mine = buf.copy()
+            cm.update_model_parameters(mine)
+            y1 = cm(x)
+            mine[...] = 0  # the caller recycles its buffer
+            S.claim("combined_model_keeps_its_parameters_when_the_caller_reuses_its_buffer", S.eq(cm(x), y1))
+            exp = buf[0] * x + buf[1]
+            ok = []
+            for idx in np.ndindex(*lab.shape):
+                l_ = int(lab[idx])
+                ok.append(S.eq(y1[idx], buf[2 + l_] * exp[idx] + buf[2 + nl + l_]))
+            S.claim("combined_model_routes_the_vector_into_a_labelwise_part", S.and_(ok))
         return
     if k == "hetero_history":
         # a call at another resolution (labels resized internally) must not influence a later call
